@@ -5,6 +5,8 @@ import JmesVerif.Spec.GrammarCheck
 import JmesVerif.Model.Interp
 import JmesVerif.Spec.Paren
 import JmesVerif.Spec.Sem
+import JmesVerif.Model.Errors
+import JmesVerif.Model.Registry
 /-!
 Line-protocol driver for the model side of the correspondence streams (DESIGN §4.2).
 `jmdriver <stream>` reads one case per line on stdin and writes one result line per case.
@@ -117,6 +119,90 @@ def streamEval (fields : List String) : String :=
         | .error e => evalErrStr e ++ "\tsem=" ++ semTag
   | _ => "BADCASE"
 
+/-- errfmt: `<expr hex>\t<offset>` → line, column, rendered message of a parse error with reason "x" -/
+def streamErrfmt (fields : List String) : String :=
+  match fields with
+  | [h, o] =>
+    match o.toNat? with
+    | some off =>
+      let cs := (Enc.unhexStr h).toList
+      let (l, c) := Errors.lineCol cs off
+      let sl := (Spec.lineOf (Spec.charsBefore cs 0 off), Spec.colOf (Spec.charsBefore cs 0 off))
+      s!"line={l} col={c} text={Enc.hexStr (Errors.render "Parse error: x" cs l c)}\tspec={sl.1},{sl.2}"
+    | none => "BADCASE"
+  | _ => "BADCASE"
+
+def sigMenu (k : Nat) : Option Sig :=
+  match k with
+  | 0 => none
+  | 1 => some ⟨[.any], none⟩
+  | 2 => some ⟨[.number, .string], none⟩
+  | 3 => some ⟨[.expref, .array], none⟩
+  | 4 => some ⟨[.any], some .any⟩
+  | 5 => some ⟨[.union [.typedArray .number, .typedArray .string]], none⟩
+  | _ => some ⟨[], none⟩
+
+def parseRegOp (s : String) : Option RegOp :=
+  match s.splitOn ":" with
+  | ["r", n, id, sg] =>
+    match id.toNat?, sg.toNat? with
+    | some i, some k => some (.register (Enc.unhexStr n) (.custom i (sigMenu k)))
+    | _, _ => none
+  | ["d", n] => some (.deregister (Enc.unhexStr n))
+  | ["b"] => some .registerBuiltins
+  | _ => none
+
+def queryStr (rt : Registry) (expr : String) (doc : Val) : String :=
+  match query rt evalFuel expr.toList doc with
+  | .compileErr e => "C " ++ compileErrStr e
+  | .result (.ok v) => "ok " ++ Enc.valStr v
+  | .result (.error e) => evalErrStr e
+
+/-- registry: `<ops>\t<doc>\t<queries>` → results `|`-separated -/
+def streamRegistry (fields : List String) : String :=
+  match fields with
+  | [ops, d, qs] =>
+    match Enc.parseVal d with
+    | none => "BADCASE doc"
+    | some doc =>
+      let ops := ((ops.splitOn ";").filter (· ≠ "")).filterMap parseRegOp
+      let rt := Registry.run ops
+      " | ".intercalate (((qs.splitOn ",").filter (· ≠ "")).map fun q => queryStr rt (Enc.unhexStr q) doc)
+  | _ => "BADCASE"
+
+def parseHistOp (s : String) : Option HistOp :=
+  let kind := (s.take 1).toString
+  match ((s.drop 1).toString).splitOn ":" with
+  | [k] =>
+    match k.toNat? with
+    | some k => if kind == "x" then some (.drop k) else none
+    | none => none
+  | [k, r] =>
+    match k.toNat? with
+    | some k =>
+      if kind == "c" then some (.compile k (Enc.unhexStr r).toList)
+      else match r.toNat? with
+        | some j => if kind == "l" then some (.clone k j) else if kind == "s" then some (.search k j) else none
+        | none => none
+    | none => none
+  | _ => none
+
+def histOutStr : HistOut → String
+  | .compiled a => "ok " ++ Enc.astStr a
+  | .compileErr e => compileErrStr e
+  | .cloned => "cloned" | .empty => "empty" | .dropped => "dropped"
+  | .searched (.ok v) => "ok " ++ Enc.valStr v
+  | .searched (.error e) => evalErrStr e
+
+/-- history: `<docs>\t<ops>` → per-op results -/
+def streamHistory (fields : List String) : String :=
+  match fields with
+  | [ds, ops] =>
+    let docs := (ds.splitOn ";").map fun d => (Enc.parseVal d).getD .null
+    let ops := ((ops.splitOn ";").filter (· ≠ "")).filterMap parseHistOp
+    " | ".intercalate ((histRun evalFuel docs [] ops).map histOutStr)
+  | _ => "BADCASE"
+
 partial def loop (h : IO.FS.Stream) (out : IO.FS.Stream) (f : List String → String) : IO Unit := do
   let line ← h.getLine
   if line.isEmpty then return ()
@@ -131,4 +217,7 @@ def main (args : List String) : IO UInt32 := do
   | ["slice"] => loop stdin stdout streamSlice; return 0
   | ["parse"] => loop stdin stdout streamParse; return 0
   | ["eval"] => loop stdin stdout streamEval; return 0
+  | ["errfmt"] => loop stdin stdout streamErrfmt; return 0
+  | ["registry"] => loop stdin stdout streamRegistry; return 0
+  | ["history"] => loop stdin stdout streamHistory; return 0
   | _ => IO.eprintln "usage: jmdriver <stream>"; return 2
